@@ -24,5 +24,6 @@ InDomain(in, obs) ==
 Exp(in, obs) == Selection(TreeOf(in, obs), CfgOf(in), in.roots, TestOf(in, obs))
 Conforms(in, obs) == Measured(obs) /\ obs.exit = 0 /\ obs.paths = Exp(in, obs).paths
 Describe(in) == [test |-> in.test]
+Beyond(in) == FALSE
 INSTANCE TraceCheck
 =============================================================================
